@@ -3,7 +3,7 @@ the expiry source and the internal cancellation queue are registered — with no
 from engine.facts import CannotDecide
 from .shape_common import run_jobs, server_chains, chain_name
 
-SRC_NAME = {'T': 'deadline expiry', 'K': 'cancellation queue'}
+SRC_NAME = {'T': 'deadline expiry', 'K': 'cancellation queue', 'R': 'transport read'}
 
 
 def coverage(ctx, tag, sources):
